@@ -46,7 +46,7 @@ func genCase(t *rapid.T) Case {
 	n := rapid.IntRange(3, 40).Draw(t, "n")
 	c := Case{}
 	for i := 0; i < n; i++ {
-		k := rapid.IntRange(0, 19).Draw(t, "kind")
+		k := rapid.IntRange(0, 21).Draw(t, "kind")
 		switch {
 		case k <= 4:
 			v := rapid.SliceOfN(rapid.Byte(), 0, 12).Draw(t, "v")
@@ -93,8 +93,25 @@ func genCase(t *rapid.T) Case {
 			c.Acts = append(c.Acts, Act{Kind: "compact", N: rapid.IntRange(0, 3).Draw(t, "keep")})
 		case k <= 18:
 			c.Acts = append(c.Acts, Act{Kind: "restart-worker"})
-		default:
+		case k == 19:
 			c.Acts = append(c.Acts, Act{Kind: "restart-follower"})
+		case k == 20:
+			// a recovery that dies after N records of the leader's stream (possibly after it loaded a part of them)
+			c.Acts = append(c.Acts, Act{Kind: "broken-restore", N: rapid.IntRange(0, 8).Draw(t, "after")})
+		default:
+			// the pattern: sizeable pairs, a recovery that dies after it loaded some of them, the leader removes one of them and compacts
+			// its log, the follower has to recover again
+			np := rapid.IntRange(3, 5).Draw(t, "bigpairs")
+			for j := 0; j < np; j++ {
+				c.Acts = append(c.Acts, Act{Kind: "put", K: keys[j%len(keys)], V: bytes.Repeat([]byte{byte('P' + j)}, rapid.IntRange(150, 200).Draw(t, "pKiB")*1024)})
+			}
+			c.Acts = append(c.Acts, Act{Kind: "broken-restore", N: rapid.IntRange(1, np+1).Draw(t, "after")})
+			if rapid.Bool().Draw(t, "delrange") {
+				c.Acts = append(c.Acts, Act{Kind: "delrange", K: keys[0], End: []byte{0}})
+			} else {
+				c.Acts = append(c.Acts, Act{Kind: "del", K: keys[rapid.IntRange(0, np-1).Draw(t, "victim")%len(keys)]})
+			}
+			c.Acts = append(c.Acts, Act{Kind: "compact", N: 0}, Act{Kind: "poll", N: rapid.IntRange(0, len(replfx.LogSizes)-1).Draw(t, "server")})
 		}
 	}
 	return c
@@ -110,12 +127,18 @@ var (
 func sharedPair() error {
 	pairOnce.Do(func() {
 		cache := 0
+		followerLog := uint64(6 * 1024 * 1024)
 		if sh := os.Getenv("VERIF_SHARD"); sh != "" && (sh[len(sh)-1]-'0')%2 == 1 {
 			cache = 8 // odd shards run the leader with the log cache enabled
 		}
+		if sh := os.Getenv("VERIF_SHARD"); sh != "" && ((sh[len(sh)-1]-'0')/2)%2 == 1 {
+			// shards 2, 3, 6, 7, ...: a follower whose restore batches are cut at 512 KiB, so that a recovery of a few sizeable pairs
+			// proposes several batches (and can die between them)
+			followerLog = 1024 * 1024
+		}
 		pair, pairErr = replfx.NewPair(replfx.Opts{
 			Leader:   enginefx.Opts{NodeID: 1, LogCacheSize: cache, MaxInMemLogSize: 6 * 1024 * 1024},
-			Follower: enginefx.Opts{NodeID: 1, MaxInMemLogSize: 6 * 1024 * 1024},
+			Follower: enginefx.Opts{NodeID: 1, MaxInMemLogSize: followerLog},
 		})
 	})
 	return pairErr
@@ -189,7 +212,7 @@ func run(c Case, o *vt.Obs) *vt.Failure {
 	}
 	lastSrv := 0
 	prevLeaderIdx := uint64(0)
-	snapshots, polls, restartsBetween, txnsBefore, txnsAfter := 0, 0, 0, 0, 0
+	snapshots, polls, restartsBetween, txnsBefore, txnsAfter, brokenRestores := 0, 0, 0, 0, 0, 0
 	pendingSincePoll := 0
 	ctxT := func() (context.Context, context.CancelFunc) {
 		return context.WithTimeout(context.Background(), 20*time.Second)
@@ -358,6 +381,20 @@ func run(c Case, o *vt.Obs) *vt.Failure {
 			}
 			time.Sleep(30 * time.Millisecond) // log compaction becomes visible to the log reader shortly after
 			o.Label("leader-log-compaction")
+		case "broken-restore":
+			n, ferr, rerr := p.BrokenRestore(name, lastSrv, a.N)
+			if ferr != nil {
+				return vt.Failf(prop+"/snapshot-fetch-error", i, "%v", ferr)
+			}
+			if rerr == nil {
+				// the stream was shorter than the breaking point: a complete recovery
+				snapshots++
+				o.Label("complete-recovery-through-restore")
+			} else {
+				o.Label(fmt.Sprintf("recovery-died-after-%s-records", map[bool]string{true: "0", false: ">=1"}[n == 0]))
+				brokenRestores++
+			}
+			w = nil
 		case "restart-worker":
 			w = nil
 			if pendingSincePoll > 0 {
@@ -424,7 +461,7 @@ func run(c Case, o *vt.Obs) *vt.Failure {
 		return f
 	}
 	o.LabelN("follower-apply-calls-examined", applies)
-	o.NonTrivial = (snapshots > 0 && txnsBefore > 0 && txnsAfter > 0) || restartsBetween > 0
+	o.NonTrivial = (snapshots > 0 && txnsBefore > 0 && txnsAfter > 0) || restartsBetween > 0 || (brokenRestores > 0 && snapshots > 0)
 	if restartsBetween > 0 {
 		o.Label("restart-with-pending-entries")
 	}
